@@ -202,7 +202,7 @@ func grid(c *vf.Ctx, k *kind) {
 		}
 	}
 	outN := 2*R + 50
-	c.ParallelFor(len(cs), func(i int) {
+	pfor(c, k.name+" section G", len(cs), func(i int) {
 		g := cs[i]
 		msg := dataClass(c, "G-"+k.name, g.class, g.L)
 		want := k.stream(msg, max(outN, 1000))
@@ -333,7 +333,7 @@ func cshakeGrid(c *vf.Ctx) {
 			}
 		}
 	}
-	c.ParallelFor(len(cs), func(i int) {
+	pfor(c, "cSHAKE section C", len(cs), func(i int) {
 		x := cs[i]
 		N := c.Bytes("C-N", x.p.n, x.p.n)
 		S := c.Bytes("C-S", x.p.s, x.p.s)
@@ -469,7 +469,8 @@ func sequences(c *vf.Ctx, k *kind) {
 			cat, _, _ := strings.Cut(mis, " | ")
 			return k.name + ": history: " + cat
 		},
-		Run: func(hist []op) (string, bool, string) {
+		Run: func(hist []op) (key string, stop bool, mis string) {
+			defer recoverRun(&stop, &mis)
 			cur := &obj{h: k.newHash()}
 			var parked []*obj
 			pos := 0
@@ -562,4 +563,24 @@ func sequences(c *vf.Ctx, k *kind) {
 			return "", false, ""
 		},
 	})
+}
+
+// pfor is c.ParallelFor with every case guarded: a panic escaping the code under test
+// is recorded as a violation instead of crashing the run.
+func pfor(c *vf.Ctx, section string, n int, f func(i int)) {
+	c.ParallelFor(n, func(i int) {
+		if p, v, st := vf.Protect(func() { f(i) }); p {
+			if len(st) > 1500 {
+				st = st[:1500]
+			}
+			c.Violation(section+": unexpected panic in the code under test", map[string]any{"case_index": i, "panic": fmt.Sprint(v), "stack": st})
+		}
+	})
+}
+
+// recoverRun turns a panic inside a history into a mismatch of that history.
+func recoverRun(stop *bool, mis *string) {
+	if r := recover(); r != nil {
+		*stop, *mis = true, fmt.Sprintf("unexpected panic | %v", r)
+	}
 }
